@@ -22,6 +22,7 @@ def run(chk):
     frames = framegen.make_libzstd_frames(rng, n)
     import synth
     frames += synth.make_sequence_frames(rng, n // 2)
+    frames += synth.make_rle_repeat_frames(rng, n // 10)
     frames += [f for f in framegen.make_ruzstd_frames(rng, n // 4) if f.get('frame')]
     frames += framegen.make_simple_synthetic(rng, n // 3)
     lines = ['src=%s I Q Ba Q C K Q' % hexs(f['frame']) for f in frames]
